@@ -1,7 +1,8 @@
 (* C02 -- and/or short-circuit and return Python's operand value.
-   Statements only; proofs are in Compiler/Correct1.v and Compiler/BoolRef.v. *)
+   Statements only; proofs are in Compiler/Correct1.v, Compiler/BoolRef.v, Compiler/NoTimeout.v. *)
 From HyV Require Import Compiler.Syntax Compiler.PySem Compiler.HySem Compiler.Compile
-  Compiler.PyFacts Compiler.HyFacts Compiler.Sim Compiler.Named Compiler.Correct1 Compiler.BoolRef Compiler.Shape.
+  Compiler.PyFacts Compiler.HyFacts Compiler.Sim Compiler.Named Compiler.Correct1 Compiler.Correct3
+  Compiler.NoTimeout Compiler.BoolRef Compiler.Shape.
 
 (* The reference semantics says what the property says: the value is that of the first falsy (and) /
    truthy (or) operand or else of the last; (and) is True, (or) is None; exactly the operands up to
@@ -13,25 +14,37 @@ Proof. exact and_or_reference. Qed.
 Print Assumptions C02_reference_semantics.
 
 (* The compiled code simulates that reference: for every operator, every operand list of ANY length whose
-   operands are arbitrary layer-1 forms (constants, variables, effectful calls, do/setv/setx blocks that
-   need statements, if, not, raise, nested and/or to any depth), every fault oracle (any effect point may
-   raise), every store: same outcome (value or escaping exception), same effect trace, same user variables.
-   The premise [snd c' = false] says Result.rename was not applied inside the form (see C01). *)
-Theorem C02_compiled_and_or_correct : forall fault issub isand es,
+   operands are arbitrary forms of the modelled language (plain, effectful, statement-producing do/setv/
+   if/try/while blocks, nested and/or to any depth), every fault oracle (any effect point may raise),
+   every store: same outcome, same effect trace, same user variables (unless the reference run exhausts
+   its fuel inside a loop).  The premise [snd c' = false] says Result.rename was not applied inside the
+   form (C01's finding, not and/or's). *)
+Theorem C02_compiled_and_or_correct : forall fault issub isand es c r c',
+  compile (HBool isand es) c = (r, c') -> snd c' = false ->
+  forall l s s' t, eqU s s' ->
+    rel (heval1 fault issub (hrec_at fault issub l) (HBool isand es) s t)
+        (run fault issub (rec_at fault issub l) r s' t).
+Proof. intros fault issub isand es. exact (proj2 (compile_correct_all fault issub (HBool isand es))). Qed.
+Print Assumptions C02_compiled_and_or_correct.
+
+(* Without loops in the operands there is no fuel to exhaust: strict agreement. *)
+Theorem C02_compiled_and_or_correct_loop_free : forall fault issub isand es,
   forallb frag1 es = true ->
   forall c r c', compile (HBool isand es) c = (r, c') -> snd c' = false ->
-  forall fuel s s' t, eqU s s' ->
-    rel (heval1 fault issub (hrec_of fault issub fuel) (HBool isand es) s t)
-        (run fault issub (rec_of fault issub fuel) r s' t).
+  forall l s s' t, eqU s s' ->
+    rel0 (heval1 fault issub (hrec_at fault issub l) (HBool isand es) s t)
+         (run fault issub (rec_at fault issub l) r s' t).
 Proof.
-  intros fault issub isand es Hf. assert (H : frag1 (HBool isand es) = true) by (cbn [frag1]; rewrite frag1_all; exact Hf).
-  exact (proj2 (layer1_correct fault issub _ H)).
+  intros fault issub isand es Hf c r c' Hc Hfl l s s' t Hs.
+  assert (H : frag1 (HBool isand es) = true) by (cbn [frag1]; rewrite frag1_all; exact Hf).
+  destruct (proj2 (compile_correct_all fault issub (HBool isand es)) c r c' Hc Hfl l s s' t Hs) as [HT | R]; [|exact R].
+  exfalso. exact (frag1_no_timeout fault issub _ H _ s t HT).
 Qed.
-Print Assumptions C02_compiled_and_or_correct.
+Print Assumptions C02_compiled_and_or_correct_loop_free.
 
 (* the hypotheses are met by a non-trivial form: (and u0 (do (setv u1 (log 1 7)) u1) (or (log 2 u2) u3) (log 3 0)) *)
 Example C02_premises_met :
   let es := [HVar 0; HDo [HSetv 1 (HLog 1 (HConst (VInt 7))); HVar 1]; HBool false [HLog 2 (HVar 2); HVar 3]; HLog 3 (HConst (VInt 0))] in
-  forallb frag1 es = true /\ snd (snd (compile (HBool true es) (0, false))) = false
-  /\ length (rs (fst (compile (HBool true es) (0, false)))) = 2%nat.
+  forallb frag1 es = true /\ snd (snd (compile (HBool true es) (0%nat, false))) = false
+  /\ length (rs (fst (compile (HBool true es) (0%nat, false)))) = 2%nat.
 Proof. repeat split; vm_compute; reflexivity. Qed.
